@@ -209,6 +209,66 @@ def run_species(hist):
         return [('machinery', f'{type(e).__name__}: {e}\n{traceback.format_exc()}')]
 
 
+HDR = 'id,ident,type,name,latitude_deg,longitude_deg,elevation_ft,continent,iso_country,iso_region,municipality,scheduled_service,gps_code,iata_code,local_code,home_link,wikipedia_link,keywords'
+
+
+def run_airports(case):
+    """One AirportLookup.tla case in a fresh process: main and patch file written, configuration loaded, every code asked."""
+    import os
+    import shutil
+    import tempfile
+    from pathlib import Path
+
+    warnings.simplefilter('ignore')
+    tmp = Path(tempfile.mkdtemp(prefix='x07-'))
+    try:
+        from .core import REPO
+
+        def rows(rs, base):
+            out = [HDR]
+            for k, r in enumerate(rs):
+                out.append(f'{base + k},X{k},small_airport,Row {r["tag"]},{r["tag"]}.5,{10 + r["tag"]}.25,{r["elev"]},NA,US,US-XX,Town {r["tag"]},no,X{k},{r["code"]},,,,')
+            return '\n'.join(out) + '\n'
+
+        (tmp / 'a' / 'airports').mkdir(parents=True)
+        (tmp / 'b' / 'airports').mkdir(parents=True)
+        (tmp / 'a' / 'airports' / 'airports.csv').write_text(rows(case['main'], 100))
+        (tmp / 'b' / 'airports' / 'airports-patch.csv').write_text(rows(case['patch'], 200))
+        os.environ['AEIC_PATH'] = str(tmp / 'b') + os.pathsep + str(REPO / 'tests' / 'data')
+        from AEIC.config import Config
+        from AEIC.utils import airports as ap
+
+        Config.reset()
+        Config.load(data_path_overrides=[tmp / 'a', REPO / 'tests' / 'data'])
+        devs = []
+        for code, want in case['ans'].items():
+            try:
+                a = ap.airport(code)
+            except Exception as e:
+                devs.append((f'airports:raised-{type(e).__name__}', f'airport({code!r}) raised {type(e).__name__}: {e}; main {case["main"]}, patch {case["patch"]}'))
+                continue
+            if a is None:
+                got = {'known': False, 'tag': 0, 'haselev': False, 'elev': ''}
+            else:
+                tag = int(a.latitude)
+                ok = a.iata_code == code and a.longitude == 10 + tag + 0.25 and a.name == f'Row {tag}' and a.municipality == f'Town {tag}' and a.country == 'US'
+                got = {'known': True, 'tag': tag if ok else -1, 'haselev': a.elevation is not None, 'elev': '' if a.elevation is None else str(int(round(a.elevation / 0.3048)))}
+                alt = a.position.altitude
+                if abs(alt - (0.0 if a.elevation is None else a.elevation)) > 1e-9 or (a.elevation is not None and abs(a.elevation - float(want['elev'] or 0) * 0.3048) > 1e-9 and want['haselev']):
+                    devs.append(('airports:altitude', f'airport({code!r}): elevation {a.elevation} m, position altitude {alt} m; elevation cell {want["elev"]!r} ft'))
+            if got != want:
+                devs.append(('airports:lookup', f'airport({code!r}) gave {got}; specification: {want}; main rows {case["main"]}, patch rows {case["patch"]}'))
+        if ap.airport('ZZZ') is not None or ap.airport('') is not None:
+            devs.append(('airports:unknown-code', f'airport("ZZZ") / airport("") answered {ap.airport("ZZZ")} / {ap.airport("")}; specification: None'))
+        return devs
+    except Exception as e:
+        import traceback
+
+        return [('machinery', f'{type(e).__name__}: {e}\n{traceback.format_exc()}')]
+    finally:
+        shutil.rmtree(tmp, ignore_errors=True)
+
+
 def run_phases(hist):
     """One TrajectoryPhases.tla behaviour on a real Trajectory (the walk continues on copies)."""
     warnings.simplefilter('ignore')
@@ -517,4 +577,22 @@ def run_x06(ctx: Ctx):
     _replay(ctx, hs, run_species, 'speciesmap')
 
 
-EXTRAS = {'X01': run_x01, 'X02': run_x02, 'X03': run_x03, 'X04': run_x04, 'X05': run_x05, 'X06': run_x06}
+def run_x07(ctx: Ctx):
+    from .store_replay import fresh_map
+
+    ctx.rule = 'every AirportLookup.tla case: main file of 0..3 rows x patch file of 0..2 rows (repeated codes, blank codes, 4 elevation cells) (2 028), each in a fresh process, every code asked'
+    ctx.assumptions += ['not a listed property: specification growth (DESIGN.md section 10)', 'the table is read once per process (lazy module-level cache): one case per process']
+    cs = tlc.check(ctx, 'extras/AirportLookup', 'extras/MC_AirportLookup.cfg', workers=4)['emitted']
+    ctx.exhaustive = True
+    ctx.log(f'airports: {len(cs)} cases')
+    for c, devs in zip(cs, fresh_map(run_airports, cs)):
+        ctx.case_done(('airports', c['main'], c['patch']), nontrivial=len(c['patch']) > 0)
+        if len(c['main']) == 3 and len(c['patch']) == 2:
+            ctx.sample(c, limit=1)
+        for key, desc in devs:
+            if key == 'machinery':
+                raise MachineryError('airports worker failed: ' + desc)
+            ctx.violation(key, desc, c)
+
+
+EXTRAS = {'X07': run_x07, 'X01': run_x01, 'X02': run_x02, 'X03': run_x03, 'X04': run_x04, 'X05': run_x05, 'X06': run_x06}
